@@ -33,6 +33,10 @@ def cases(tier, seed):
                                 yield dict(kind=algo, mattype=mt, n=n, spectrum=spec, k=k, vreal=vreal,
                                            seed=int(rng.integers(1 << 31)))
         if algo == 'arnoldi':
+            for n in (40, 50):
+                for r in range(reps):
+                    yield dict(kind=algo, mattype='special', mapform='decay', n=n, spectrum='separated', k=0, vreal=False, ms=[n // 2], otol=1e-7,
+                               seed=int(rng.integers(1 << 31)))
             for n in range(1, 6):
                 for vreal in (False, True):
                     for r in range(reps):
@@ -119,13 +123,13 @@ def run_case(c):
             fail('premature_exit', f'{tag}: returned only {mp} vectors, Krylov dimension is {kdim}, reference off-diagonal {sub[mp-1]}')
         Vp = V[:, :p]
         G = Vp.conj().T @ Vp
-        if not oracle.close(G, np.identity(p), scale=1.0, tol=1e-9):
+        if not oracle.close(G, np.identity(p), scale=1.0, tol=c.get('otol', 1e-9)):
             fail('orthonormal', f'{tag}: |V^H V - I| on the leading {p} vectors = {np.linalg.norm(G - np.identity(p))}')
         # first vector is the normalised start vector
         if not oracle.close(Vp[:, 0] * np.linalg.norm(v), v, scale=float(np.linalg.norm(v)), tol=1e-9):
             fail('first_vector', f'{tag}: V[:,0] is not the normalised start vector')
         PT = Vp.conj().T @ A @ Vp
-        if not oracle.close(PT, T, scale=sc, tol=1e-9):
+        if not oracle.close(PT, T, scale=sc, tol=c.get('otol', 1e-9)):
             fail('projection', f'{tag}: |V^H A V - T| on the leading {p}x{p} part = {np.linalg.norm(PT - T)} (|A| = {nA})')
     # history: a result must not change when the routine is called again with arguments of the same size (second call)
     if not fails:
